@@ -39,7 +39,7 @@ EntryOf(l, p) ==
       [] p = "v" -> IF l = "de" THEN NullE ELSE ValE(<<Text(TagText(l, <<"SP">>)), Var(X), Text(<<"SP","e","n","d">>)>>)
       [] p = "c" -> ValE(<<Text(LTag[l]), Comp(<<"b">>, <<Text(<<"i","n","SP">>), Var(X)>>), Comp(<<"i">>, <<Comp(<<"b">>, <<Text(<<"n">>)>>)>>)>>)
       [] p = "r" -> RangeE(l)
-      [] p = "p" -> IF l = "de" THEN NullE ELSE PluralE(l, "cardinal")
+      [] p = "p" -> IF l \in {"de", "fr"} THEN NullE ELSE PluralE(l, "cardinal")   \* fr and en disagree on the category of 0
       [] p = "o" -> PluralE(l, "ordinal")
       [] p = "g.s" -> ValE(<<Text(TagText(l, <<"g","s","SP">>)), Var(X)>>)
       [] p = "g.h.t" -> IF l = "fr" THEN NullE ELSE Lit("String", TagText(l, <<"g","h","t">>))
